@@ -708,6 +708,14 @@ PROPS["C16"].update({"profiles": CONN_PROFILES + E2E_PROGRESS, "impl_only_prefix
                      "history_starts": ("cn_new", "e2e_run")})
 
 
+# C11 "however split": where a block is cut is decided by frames, and the resumption of a block across HEADERS / PUSH_PROMISE
+# + CONTINUATION lives in codec/framed_read.rs — the codec read tie (real h2::Codec vs model vs RFC frame / HPACK reference)
+# belongs to C11's check as well
+PROPS["C11"]["profiles"] = PROPS["C11"]["profiles"] + [
+    {"name": "codecread", "quick": 250, "thorough": 3000, "shards": {"quick": 1, "thorough": 6}}]
+PROPS["C11"]["relations"] = dict(PROPS["C11"]["relations"], spec_rd_all=rel_equal)
+PROPS["C11"]["history_starts"] = tuple(PROPS["C11"]["history_starts"]) + ("rd_new",)
+
 # C01 at the stream layer: the connection model (DATA order / ledger theorems in H2V/Props/C01Streams.lean when present)
 # tied to the real connection like the other connection-level properties; the codec-chain theorems stay in Props/C01.lean
 PROPS["C01"].update({
